@@ -67,7 +67,8 @@ Inductive operand :=
 | OInt (v : Z)
 | OBool (b : bool)
 | OVStr (neg : bool) (bw num : Z)
-| OConst (o : operand) (bitwidth : option Z) (signed : bool).
+| OConst (o : operand) (bitwidth : option Z) (signed : bool)
+| OLazy (a : sv).   (* mem[addr] / rom[addr] not yet materialised (memory._MemIndexed); a = the read data *)
 
 Definition const_of (o : operand) (bitwidth : option Z) (signed : bool) : option sv :=
   match o with
@@ -136,6 +137,7 @@ Definition as_wires_wire (a : sv) (bitwidth : option Z) : option sv :=
 Definition as_wires (o : operand) (bitwidth : option Z) : option sv :=
   match o with
   | OWire a => as_wires_wire a bitwidth
+  | OLazy a => as_wires_wire a bitwidth    (* as_wires builds the read port, then it is a WireVector *)
   | OConst c bw' s =>
       match const_of c bw' s with
       | Some a => as_wires_wire a bitwidth
